@@ -23,7 +23,8 @@ ASSUMPTIONS = ['size_t arithmetic does not wrap: Props.C01.intermediates_le_prod
 def harness_specs(tier):
     return [dict(name='h_c01', src='h_c01.cpp', flavour='fast'),
             dict(name='h_c01ct', src='h_c01ct.cpp', flavour='fast'),     # generated: harness/gen_c01_ct.py
-            dict(name='h_c01s', src='h_c01s.cpp', flavour='fast')]      # user-chosen strides containers
+            dict(name='h_c01s', src='h_c01s.cpp', flavour='fast'),      # user-chosen strides containers
+            dict(name='h_c01w', src='h_c01w.cpp', flavour='fast')]      # machine width: 32/64-bit signed/unsigned element types
 
 
 CT_TABLE = [[2, 3, 4], [3, 2], [4], [2, 1, 3], [1], [3, 3], [2, 2, 2, 2], [4, 3]]     # = TABLE of harness/gen_c01_ct.py
@@ -42,7 +43,133 @@ def indices_py(off, s):
     return [(off // st[k]) % s[k] for k in range(len(s))]
 
 
+# ----------------------------------------------------------------------------------------------------------------
+# machine width (harness/h_c01w.cpp, NmVerif.Index.MachineAddr): element types of the index containers
+# ----------------------------------------------------------------------------------------------------------------
+W_LIM = {'i32': 2 ** 31, 'u32': 2 ** 32, 'i64': 2 ** 63, 'u64': 2 ** 64}       # number of non-negative values
+W_KINDS = ['vec', 'arr', 'sv']
+W_PAIRS = [('i32', 'i32'), ('u32', 'u32'), ('i64', 'i64'), ('u64', 'u64'), ('i32', 'u64'), ('u64', 'i32'), ('i32', 'u32')]
+SZ = 2 ** 64
+
+
+def w_in_domain(ty, s):
+    """hypotheses of mStrides_exact / mIndices_exact: extents >= 1 that fit, suffix product of the tail fits"""
+    return all(1 <= e < W_LIM[ty] for e in s) and prod(s[1:]) < W_LIM[ty]
+
+
+def w_factor(rng, target, r):
+    """r extents >= 1 whose product is <= target and (for the last few) close to it"""
+    out = []
+    rem = target
+    for k in range(r):
+        if k == r - 1:
+            e = rem
+        else:
+            e = int(round(rem ** (1.0 / (r - k)) * rng.uniform(0.4, 1.6)))
+        e = max(1, min(e, rem))
+        out.append(e)
+        rem = max(1, rem // e)
+    rng.shuffle(out)
+    return out
+
+
+def w_shapes(tier, rng, ty):
+    """shapes in the domain of `ty` whose element count and whose leading stride straddle 2^31, 2^32, 2^40, 2^63, 2^64"""
+    M = W_LIM[ty]
+    marks = [2 ** 31, 2 ** 32, 2 ** 40, 2 ** 63, 2 ** 64]
+    # the seeded / textbook shapes
+    fixed = [[3, 2 ** 30], [5, 1024, 2 ** 20], [8, 1, 1024, 1024, 1, 1024], [2, 2 ** 30], [2 ** 15, 2 ** 16], [2 ** 16, 2 ** 15],
+             [4, 2 ** 30 + 1], [2, 2, 2 ** 30 - 1], [2 ** 31 - 1], [2 ** 31 - 1, 2 ** 31 - 1], [3, 1, 2 ** 31 - 1], [2 ** 31 - 1, 1, 1]]
+    if M > 2 ** 31:
+        fixed += [[2 ** 32 - 1], [2 ** 32 - 1, 2 ** 32 - 1], [2 ** 16, 2 ** 16], [3, 2 ** 16 - 1, 2 ** 16 + 1], [2, 2 ** 31], [2 ** 32 - 1, 2 ** 31, 1]]
+    if M > 2 ** 32:
+        fixed += [[2 ** 32, 2 ** 31 - 1], [2 ** 31, 2 ** 31, 2], [2 ** 21, 2 ** 21, 2 ** 21], [2 ** 62, 2], [3, 2 ** 62], [2 ** 63 - 1], [1, 2 ** 63 - 1, 1],
+                  [2 ** 32, 2 ** 32 - 1], [2 ** 16] * 4 if M > 2 ** 63 else [2 ** 16, 2 ** 16, 2 ** 16, 2 ** 15]]
+    if M > 2 ** 63:
+        fixed += [[2 ** 64 - 1], [2, 2 ** 63], [2 ** 32, 2 ** 32], [1, 2 ** 64 - 1], [3, 2 ** 63 + 5], [2 ** 32 + 1, 2 ** 32 - 1]]
+    for s in fixed:
+        if w_in_domain(ty, s):
+            yield s
+    n = 40 if tier == 'quick' else 400
+    for t in range(n):
+        r = rng.randint(1, 6)
+        # leading stride: just below the limit of the type, or near one of the marks below it
+        tails = [M - 1 - rng.randrange(0, 4), M // 2 + rng.randrange(-2, 3)] + [m + rng.randrange(-3, 0) for m in marks if m < M] + [rng.randrange(1, 2 ** 20)]
+        tail_target = max(1, tails[t % len(tails)])
+        tail = w_factor(rng, tail_target, r - 1) if r > 1 else []
+        pt = prod(tail)
+        # element count: straddle a mark
+        m = marks[(t // len(tails)) % len(marks)]
+        a = m // pt + rng.choice([-1, 0, 0, 1, 1, 2])
+        a = max(1, min(a, M - 1))
+        s = [a] + tail
+        if w_in_domain(ty, s):
+            yield s
+
+
+def w_cases(tier, rng):
+    ctr = 0
+    # (a) small scope, every element type x kind: every offset / index
+    for s in shapes(3, 3, min_rank=1):
+        n = prod(s); st = strides_py(s); nt = sum(1 for e in s if e > 1) >= 2
+        for ty in W_LIM:
+            for k in W_KINDS:
+                yield Case('w_strides ty=%s kind=%s shape=%s' % (ty, k, fmt(s)), 'h_c01w', oracle='ok ' + fmt(st), nontrivial=nt, tags=['w_strides', 'small', 'ty=' + ty, 'kind=' + k])
+        for off in range(n):
+            idx = indices_py(off, s)
+            for rep in range(2):
+                ctr += 1
+                ty = list(W_LIM)[ctr % 4]; k = W_KINDS[(ctr // 4) % 3]
+                same = ' offty=same' if (ctr // 12) % 2 else ''
+                yield Case('w_indices ty=%s kind=%s off=%d shape=%s%s' % (ty, k, off, fmt(s), same), 'h_c01w', oracle='ok ' + fmt(idx), nontrivial=nt, tags=['w_indices', 'small', 'ty=' + ty, 'kind=' + k])
+                ti, ts = W_PAIRS[ctr % 7]; ki = W_KINDS[(ctr // 7) % 3]; ks = W_KINDS[(ctr // 21) % 3]
+                yield Case('w_offset tyi=%s tys=%s ki=%s ks=%s idx=%s strides=%s' % (ti, ts, ki, ks, fmt(idx), fmt(st)), 'h_c01w', oracle='ok %d' % off, nontrivial=nt,
+                           tags=['w_offset', 'small', 'ty=%s/%s' % (ti, ts), 'kind=%s/%s' % (ki, ks)])
+    # (b) large extents: only index math.  Everything here satisfies the hypotheses of the machine-width theorems
+    #     (operands fit the element type, leading stride fits, true offset < 2^64), so the exact Python integers are demanded.
+    for ty in W_LIM:
+        M = W_LIM[ty]
+        for s in w_shapes(tier, rng, ty):
+            n = prod(s); st = strides_py(s); r = len(s)
+            nt = sum(1 for e in s if e > 1) >= 2
+            size_tag = 'n>=2^64' if n >= 2 ** 64 else 'n>=2^63' if n >= 2 ** 63 else 'n>=2^32' if n >= 2 ** 32 else 'n>=2^31' if n >= 2 ** 31 else 'n<2^31'
+            tags = ['large', 'ty=' + ty, size_tag]
+            for k in W_KINDS:
+                if k == 'arr' and r > 6:
+                    continue
+                yield Case('w_strides ty=%s kind=%s shape=%s' % (ty, k, fmt(s)), 'h_c01w', oracle='ok ' + fmt(st), nontrivial=nt, tags=['w_strides', 'kind=' + k] + tags)
+            # multi-indices: last element, leading axis at its maximum, random ones, neighbours of the marks
+            top = min(n, SZ)                      # offsets must be size_t values
+            offs = {top - 1, 0, rng.randrange(top), rng.randrange(top), (s[0] - 1) * st[0] if (s[0] - 1) * st[0] < top else top - 1}
+            for m in (2 ** 31, 2 ** 32, 2 ** 63):
+                for d in (-1, 0, 1):
+                    if 0 <= m + d < top:
+                        offs.add(m + d)
+            for off in sorted(offs):
+                idx = indices_py(off, s)
+                assert offset_py(idx, st) == off
+                ctr += 1
+                big = max(a * b for a, b in zip(idx, st))
+                ttag = 'term>=2^32' if big >= 2 ** 32 else 'term>=2^31' if big >= 2 ** 31 else 'term<2^31'
+                k = W_KINDS[ctr % 3]
+                same = ' offty=same' if (off < M and ctr % 4 == 0) else ''
+                yield Case('w_indices ty=%s kind=%s off=%d shape=%s%s' % (ty, k, off, fmt(s), same), 'h_c01w', oracle='ok ' + fmt(idx), nontrivial=nt, tags=['w_indices', 'kind=' + k] + tags)
+                if ctr % 5 == 0:
+                    yield Case('w_indices3 ty=%s kind=%s off=%d shape=%s strides=%s' % (ty, k, off, fmt(s), fmt(st)), 'h_c01w', oracle='ok ' + fmt(idx), nontrivial=nt, tags=['w_indices3', 'kind=' + k] + tags)
+                # offset: same element type for both containers in rotating kind pairs, plus the mixed pairs that can hold the operands
+                ki = W_KINDS[(ctr // 3) % 3]; ks = W_KINDS[(ctr // 9) % 3]
+                pairs = [(ty, ty)] + [p for p in W_PAIRS if p[0] != p[1] and (ctr % 3 == 0) and all(x < W_LIM[p[0]] for x in idx) and all(x < W_LIM[p[1]] for x in st)]
+                for ti, ts in pairs:
+                    yield Case('w_offset tyi=%s tys=%s ki=%s ks=%s idx=%s strides=%s' % (ti, ts, ki, ks, fmt(idx), fmt(st)), 'h_c01w', oracle='ok %d' % off, nontrivial=nt,
+                               tags=['w_offset', 'ty=%s/%s' % (ti, ts), 'kind=%s/%s' % (ki, ks), ttag] + tags)
+
+
 def gen(tier, rng):
+    yield from gen_nat(tier, rng)
+    yield from w_cases(tier, rng)
+
+
+def gen_nat(tier, rng):
     R, E = (4, 3) if tier == 'quick' else (5, 4)
     kinds = ['vec', 'arr', 'sv']
     for s in shapes(R, E, min_rank=1):
